@@ -2,7 +2,6 @@ package constraint
 
 import (
 	"fmt"
-	"reflect"
 	"sync"
 )
 
@@ -19,11 +18,8 @@ type BlueprintLookupHint[E Element] struct {
 	maxLevelPosition int
 	maxLevelOffset   int
 
-	// cache the resolved entries by the solver
-	cachedEntries []E
-	cachedOffset  int
-	cachedFor     uintptr // identity of the solver which resolved cachedEntries
-	lock          sync.Mutex
+	// cache of the resolved entries for solvers which cannot hold it themselves
+	cache lookupEntriesCache[E]
 }
 
 // ensures BlueprintLookupHint implements the BlueprintStateful interface
@@ -60,43 +56,53 @@ func (b *BlueprintLookupHint[E]) Solve(s Solver[E], inst Instruction) error {
 	return nil
 }
 
-// resolveEntries returns the first nbEntries entries of the table as resolved by solver s.
-//
-// The blueprint (hence the cache) is shared by all the solvers of a constraint system, which
-// may run concurrently, while the resolved entries depend on the witness: the cache is only
-// valid for the solver which filled it and is rebuilt when another solver comes in.
-func (b *BlueprintLookupHint[E]) resolveEntries(s Solver[E], nbEntries int) []E {
-	b.lock.Lock()
-	defer b.lock.Unlock()
-
-	if id := solverIdentity(s); id == 0 || id != b.cachedFor {
-		b.cachedEntries = make([]E, 0, b.entriesCapacity())
-		b.cachedOffset = 0
-		b.cachedFor = id
-	}
-
-	// check if we already cached the entries
-	if len(b.cachedEntries) < nbEntries {
-		// we need to cache more entries
-		offset, delta := b.cachedOffset, 0
-		for i := len(b.cachedEntries); i < nbEntries; i++ {
-			var zero E
-			b.cachedEntries = append(b.cachedEntries, zero)
-			b.cachedEntries[i], delta = s.Read(b.EntriesCalldata[offset:])
-			offset += delta
-		}
-		b.cachedOffset = offset
-	}
-	return b.cachedEntries[:nbEntries]
+// SolverWithBlueprintState is implemented by solvers which can hold the per-solve state of a
+// stateful blueprint. Several such solvers may work on one constraint system (hence on one
+// blueprint object) at the same time.
+type SolverWithBlueprintState interface {
+	BlueprintState() *sync.Map
 }
 
-// solverIdentity returns a value identifying a running solver (0 if it cannot be identified).
-// It does not keep the solver alive: Reset is called at the start of every solve.
-func solverIdentity[E Element](s Solver[E]) uintptr {
-	if v := reflect.ValueOf(s); v.Kind() == reflect.Pointer {
-		return v.Pointer()
+// lookupEntriesCache caches the table entries resolved by one solver.
+type lookupEntriesCache[E Element] struct {
+	lock    sync.Mutex
+	entries []E
+	offset  int
+}
+
+// resolveEntries returns the first nbEntries entries of the table as resolved by solver s.
+//
+// The resolved entries depend on the witness, while the blueprint is shared by all the
+// solvers of a constraint system, which may run concurrently: the cache is kept in the
+// solver when it offers to hold it (the constraint system solvers do), and in the blueprint
+// otherwise (a single solver at a time, e.g. the test engine; see Reset).
+func (b *BlueprintLookupHint[E]) resolveEntries(s Solver[E], nbEntries int) []E {
+	c := &b.cache
+	if h, ok := s.(SolverWithBlueprintState); ok {
+		v, _ := h.BlueprintState().LoadOrStore(b, &lookupEntriesCache[E]{})
+		c = v.(*lookupEntriesCache[E])
 	}
-	return 0
+	c.lock.Lock()
+	defer c.lock.Unlock()
+
+	if c.entries == nil {
+		// the capacity must be accurate since solver is multi threaded and we don't want to
+		// resize the slice while the solver is running.
+		c.entries = make([]E, 0, b.entriesCapacity())
+	}
+	// check if we already cached the entries
+	if len(c.entries) < nbEntries {
+		// we need to cache more entries
+		offset, delta := c.offset, 0
+		for i := len(c.entries); i < nbEntries; i++ {
+			var zero E
+			c.entries = append(c.entries, zero)
+			c.entries[i], delta = s.Read(b.EntriesCalldata[offset:])
+			offset += delta
+		}
+		c.offset = offset
+	}
+	return c.entries[:nbEntries]
 }
 
 // entriesCapacity returns the number of entries of the table; that is 1 element per linear
@@ -113,11 +119,10 @@ func (b *BlueprintLookupHint[E]) entriesCapacity() int {
 }
 
 func (b *BlueprintLookupHint[E]) Reset() {
-	b.lock.Lock()
-	defer b.lock.Unlock()
-	b.cachedEntries = make([]E, 0, b.entriesCapacity())
-	b.cachedOffset = 0
-	b.cachedFor = 0
+	b.cache.lock.Lock()
+	defer b.cache.lock.Unlock()
+	b.cache.entries = make([]E, 0, b.entriesCapacity())
+	b.cache.offset = 0
 }
 
 func (b *BlueprintLookupHint[E]) CalldataSize() int {
